@@ -134,7 +134,7 @@ def r_window(db, rep):
                 # evaluate arguments with range variables pinned: walk the function but re-pin after each statement
                 args = []
                 for a in ce.get("args", []):
-                    args.append(pinned_sym(db, g, a, left, right))
+                    args.append(pinned_sym(db, g, a, left, right, at=newn))
                 count = mk_op("-", subst_params(es, args), subst_params(ep, args))
                 rep.ob()
                 if opn == "extractTable":
@@ -185,7 +185,9 @@ def r_window(db, rep):
                             rep.viol("%s#empty-window" % g.qn, g.nloc(newn),
                                      "%s builds %s unconditionally; for the no-match pair (left, right) = (0, 0) the iterator starts at %d with "
                                      "end %d under its own protocol and yields %d phantom string(s)" % (g.qn, cls, f0 % M, e0 % M, (e0 - f0) % M), g.qn)
-                    wit = symx.differ_witness(count, want)
+                    # over genuine ID ranges 1 <= left <= right (the no-match pair (0, 0) is the obligation above)
+                    Lk, Rk = ("local", left), ("local", right)
+                    wit = symx.differ_witness(count, want, where=lambda v: (Lk not in v or v[Lk] >= 1) and (Lk not in v or Rk not in v or v[Lk] <= v[Rk]))
                     if wit is not None:
                         rep.viol("%s#prefix-window" % g.qn, g.nloc(newn),
                                  "%s locates the ID range [left,right] but gives %s (first=%s, end=%s under that class's protocol) a window of "
@@ -193,9 +195,28 @@ def r_window(db, rep):
                                      g.qn, cls, canon(subst_params(ep, args)), canon(subst_params(es, args)), canon(count), wit), g.qn)
 
 
-def pinned_sym(db, g, expr, left, right):
+def pinned_sym(db, g, expr, left, right, at=None):
     """Symbolic value of expr in g with the range variables kept as symbols and other locals resolved through
-    their (single, straight-line) definitions."""
+    their (single, straight-line) definitions.  With `at` (a node): when that leaves a local unresolved (several
+    definitions, e.g. `n = 0; if (c) n = e;`), the value is taken from a flow-sensitive walk of g up to the statement
+    containing `at` (if-merges become ite)."""
+    if at is not None:
+        v = pinned_sym(db, g, expr, left, right)
+        loose = [a for a in symx.atoms(v) if isinstance(a, tuple) and a and a[0] == "local" and a[1] not in (left, right)]
+        if not loose:
+            return v
+        sbf = SeqBuilder(db, g, "c", nosubst=True)
+        sbf.pinned = {("local", d) for d in (left, right) if d is not None}
+        sbf.probe_id = at.get("id")
+        try:
+            sbf.run()
+        except Exception:
+            return v
+        if sbf.probe_env is None:
+            return v
+        sbf.env = sbf.probe_env
+        sbf.probe_id = None
+        return sbf.sym(expr)
     sb = SeqBuilder(db, g, "c", nosubst=True)
     # resolve locals defined by a single declaration with initialiser (other than the pinned ones)
     defs = {}
@@ -324,6 +345,14 @@ def r_dedup(db, rep):
         sb = SeqBuilder(db, g, "c", nosubst=True)
         nsym = canon(sb.sym(ce["args"][ni]))
         pos = cfg.position(newn)
+        # where the array comes from: straight from SSA::locate (unsorted, count+1 entries), or from some other helper of the
+        # code base, whose own preparation of the array is not followed here
+        foreign = None
+        for n in g.calls():
+            for a in n.get("args", []):
+                sa = strip(a)
+                if sa["k"] == "UnaryOperator" and sa["op"] == "&" and access_path(g, sa["sub"]) == arr and callee_name(n) != "locate":
+                    foreign = n
         # sort over [a, a+n)
         rep.ob()
         ok_sort = False
@@ -345,6 +374,10 @@ def r_dedup(db, rep):
                 epth, ei = elem(e)
                 if bp == arr and epth == arr and bi == "0" and ei == nsym and cfg.dominates(cfg.position(n), pos):
                     ok_sort = True
+        if not ok_sort and foreign is not None:
+            rep.notes.append("%s: the array handed to %s is produced by %s, not by SSA::locate: its ordering and sentinel are prepared "
+                             "there (undecided)" % (g.qn, cls, foreign.get("fn") or callee_name(foreign)))
+            continue
         if not ok_sort:
             rep.viol("%s#unsorted" % g.qn, g.nloc(newn),
                      "%s hands %s an array that is not sorted over exactly [ids, ids+n) on every path: adjacent-duplicate skipping "
@@ -396,6 +429,22 @@ def r_dupskip(db, rep):
                      any(x["k"] in ("ArraySubscriptExpr", "CXXOperatorCallExpr") for x in walk(n["cond"]))]
             rep.ob()
             if not loops:
+                # the other design: the class removes the duplicates once, when it collects the results -
+                # container.erase(std::unique(container.begin(), container.end()), container.end()) in a constructor, over the
+                # container next() reads
+                read = {access_path(f, x["args"][0]) for x in f.live_nodes() if x["k"] == "CXXOperatorCallExpr" and x.get("opcall") == "[]" and x.get("args")} | \
+                       {access_path(f, x["base"]) for x in f.live_nodes() if x["k"] == "ArraySubscriptExpr"}
+                dedup = False
+                for c0 in db.methods_of(k):
+                    if not c0.is_ctor or not c0.body:
+                        continue
+                    for cl in c0.calls():
+                        if callee_name(cl) == "erase" and cl.get("obj") is not None and access_path(c0, cl["obj"]) in read:
+                            if any(y["k"] == "CallExpr" and callee_name(y) == "unique" for a in cl.get("args", []) for y in walk(a)):
+                                dedup = True
+                if dedup:
+                    rep.notes.append("%s: duplicates are removed once at construction (erase(unique(..))): no skipping step needed" % f.qn)
+                    continue
                 rep.viol("%s#no-skip-loop" % f.qn, f.loc,
                          "%s has no loop that skips equal neighbours: a member with three or more occurrences is reported more than once" % f.qn, f.qn)
                 continue
